@@ -44,6 +44,8 @@ type Env struct {
 	tok func(name string) string
 	// entered: at a back edge, the path condition of the header of an inner loop in the ending iteration
 	entered func(j int) (string, bool)
+	// athead: at a back edge, the value of a loop variable at the head of the ending iteration
+	athead func(name string) (Val, bool)
 	// zero: the zero value of a type as the encoder builds it, for iszero()
 	zero func(t types.Type) Val
 }
@@ -1021,6 +1023,20 @@ func (env *Env) elabCall(x *ECall) Val {
 			fail("iszero() needs a typed value")
 		}
 		return Val{T: types.Typ[types.Bool], S: fmt.Sprintf("(= %s %s)", v.S, env.zero(v.T).S)}
+	case name == "athead":
+		// athead(x) in `loop k backedge`: the value of the loop variable x when the ending iteration began
+		if len(x.Args) != 1 || env.athead == nil {
+			fail("athead(x) needs a loop variable and a back edge")
+		}
+		id, ok := x.Args[0].(*EIdent)
+		if !ok {
+			fail("athead(x): x must be a variable name")
+		}
+		v, ok := env.athead(id.Name)
+		if !ok {
+			fail("athead(%s): not a variable of this loop", id.Name)
+		}
+		return v
 	case name == "entered":
 		// entered(j) in `loop k backedge`: the iteration of loop k that ends here went through the head of loop j
 		if len(x.Args) != 1 || env.entered == nil {
